@@ -104,6 +104,7 @@ struct SimConfig {
   double   place_unaligned_p = 0.0; // with policy 1: probability per un-hinted/hint-ignored map
   int      madv_free_mode = 0;   // 0 keep, 1 discard, 2 random per call, 3 EINVAL (unsupported)
   int      thp_einval = 0;
+  double   sb_p = 0.0;           // store-buffer mode: probability that a release/relaxed atomic store is delayed past the thread's next 1-3 atomic loads
   uint64_t hold_steps = 0;       // ST_TARGETED: a thread preempted at a hot site stays descheduled for this many scheduling points (a stalled thread)
   int      stable_sched = 0;     // 1: scheduling decisions are keyed by (logical thread, operation, n-th decision in it) instead of one stream
   int      hugetlb = 0;          // explicit huge pages (mmap MAP_HUGETLB): 0 none configured (ENOMEM), 1: 2 MiB pages, 2: 2 MiB and 1 GiB pages
@@ -143,6 +144,7 @@ void     sched_os_point(int kind);                                   // preempti
 void     sched_harness_point(int what);                              // preemption point between API calls
 void     sched_call_begin();                                         // reset the per-call step budget
 void     sched_set_passthrough(bool on);                             // harness-internal mimalloc calls (queries) without scheduling
+void     sched_sb_flush();                                           // drain the calling thread's store buffer (store-buffer mode)
 int      sched_self();
 void     sched_set_logical(int id);                                  // logical thread id (program index) used for OS-call attribution
 int      sched_logical();                                               // current vthread index (-1 outside)
